@@ -271,11 +271,18 @@ func (feed *dcpFeed) run() {
 	defer atomic.AddInt32(&activeFeedCount, -1)
 
 	if feed.args.Terminator != nil {
+		// The watcher must not outlive the feed: a feed that ends for another reason (bucket
+		// closed or deleted, collection dropped, dump finished) may never see its terminator closed.
+		stopped := make(chan struct{})
+		defer close(stopped)
 		go func() {
-			<-feed.args.Terminator
-			verifPoint("feed.term", feed.args.ID)
-			debug("%s terminator closed", feed)
-			feed.events.close()
+			select {
+			case <-feed.args.Terminator:
+				verifPoint("feed.term", feed.args.ID)
+				debug("%s terminator closed", feed)
+				feed.events.close()
+			case <-stopped:
+			}
 		}()
 	}
 
